@@ -773,6 +773,29 @@ func atomLiteral(pat string) string {
 	return strings.ReplaceAll(pat, "\\", "")
 }
 
+// specHasField: the Spec type (as seen from pk) has a field of that name, directly or through its embedded presets.
+func specHasField(pk *packages.Package, name string) bool {
+	var common *types.Package
+	if pk.Types.Name() == "common" && strings.HasSuffix(pk.Types.Path(), "eth2/beacon/common") {
+		common = pk.Types
+	}
+	for _, imp := range pk.Types.Imports() {
+		if strings.HasSuffix(imp.Path(), "eth2/beacon/common") {
+			common = imp
+		}
+	}
+	if common == nil {
+		return false
+	}
+	tn, ok := common.Scope().Lookup("Spec").(*types.TypeName)
+	if !ok {
+		return false
+	}
+	obj, _, _ := types.LookupFieldOrMethod(tn.Type(), true, common, name)
+	_, isField := obj.(*types.Var)
+	return isField
+}
+
 // cmpNearMiss: the tabled comparison is gone; is there a comparison of the same class and arity that keeps all but one
 // of its operands? If the missing operand still exists in the function (a local/parameter of that name is still
 // declared; a field of that name is still selected somewhere in the package), the comparison was pointed at another
@@ -803,7 +826,8 @@ func cmpNearMiss(fn string, atoms []string, res []*regexp.Regexp, sites []cmpSit
 	}
 	for i := range sites {
 		s := &sites[i]
-		if isOrdering(s.op.String()) != ordering || len(atomsOf(s.p)) != len(res) || claimed[s.pos] {
+		// same arity, or one operand fewer (the spec's operand replaced by a plain number)
+		if isOrdering(s.op.String()) != ordering || (len(atomsOf(s.p)) != len(res) && len(atomsOf(s.p)) != len(res)-1) || len(atomsOf(s.p)) == 0 || claimed[s.pos] {
 			continue
 		}
 		missing := -1
@@ -818,6 +842,7 @@ func cmpNearMiss(fn string, atoms []string, res []*regexp.Regexp, sites []cmpSit
 		if n != len(res)-1 || missing < 0 {
 			continue
 		}
+		byNumber := len(atomsOf(s.p)) == len(res)-1
 		lit := atomLiteral(atoms[missing])
 		// operand text -> the identifier or field that must still exist
 		leaf := lit
@@ -871,7 +896,10 @@ func cmpNearMiss(fn string, atoms []string, res []*regexp.Regexp, sites []cmpSit
 				return !still
 			})
 			// spec constants are written spec.X / epc.Spec.X and appear as the bare atom X: the field still being
-			// selected anywhere in the package means it was not renamed
+			// a field of the Spec type, or selected anywhere in the package, means it was not renamed
+			if !still && leaf == strings.ToUpper(leaf) {
+				still = specHasField(d.pk, leaf)
+			}
 			if !still && leaf == strings.ToUpper(leaf) {
 				for _, f := range d.pk.Syntax {
 					ast.Inspect(f, func(n ast.Node) bool {
@@ -894,6 +922,9 @@ func cmpNearMiss(fn string, atoms []string, res []*regexp.Regexp, sites []cmpSit
 		}
 		if !still {
 			continue
+		}
+		if byNumber {
+			return s, fmt.Sprintf("a plain number where the spec's operand is `%s` (which still exists, so this is not a rename)", lit)
 		}
 		return s, fmt.Sprintf("`%s` where the spec's operand is `%s` (which still exists here, so this is not a rename)", other, lit)
 	}
@@ -1250,6 +1281,14 @@ func refusalOp(info *types.Info, fd *ast.FuncDecl, parents map[ast.Node]ast.Node
 						if st == ast.Stmt(p) && i+1 < len(blk.List) {
 							if r, ok := blk.List[i+1].(*ast.ReturnStmt); ok && terminates(p.Body) {
 								elseRef = refusalBlock(info, &ast.BlockStmt{List: []ast.Stmt{r}}, fd)
+								// `return helper(…)` hands the work on; it refuses nothing by itself
+								if len(r.Results) > 0 {
+									if cl, ok := ast.Unparen(r.Results[len(r.Results)-1]).(*ast.CallExpr); ok {
+										if f := calleeFunc(info, cl); f != nil && isZrnt(f) {
+											elseRef = false
+										}
+									}
+								}
 								if elseRef && thenRef {
 									thenRef = false // the skip yields to the refusal that follows it
 								}
